@@ -60,12 +60,12 @@ LEVEL_NOTE["C03"] = "kqueue pollers cannot execute on Linux; interleavings are s
 LEVEL_TEXT["C01"] = ("Exploration: every case starts a real engine (all I/O modes, 1..8 loops, both acceptor modes, tcp/unix, server and client side, four build-tag sets), connects 1..4 peers with generated segmentations and endings, "
                      "and runs generated per-callback consumption scripts; the oracle is position-dependent stream content plus the conservation invariant consumed + InboundBuffered, checked after every read operation inside the callbacks, "
                      "completeness at OnClose after an orderly close, and the stall rule for lock-step delivery. Quantifies over kernel segmentations and schedules that cannot be enumerated: sampling with a sound oracle is the level.")
-LEVEL_NOTE["C01"] = "Real loop-back sockets; read sizes are controlled only through lock-step segments (and the LT read-shortening shim where enabled); liveness is bounded (8 s stall rule, confirmed by re-running the case)."
+LEVEL_NOTE["C01"] = "Real loop-back sockets; read sizes are controlled through lock-step segments and, in LT mode, by the system-call shim that hands the kernel a generated share of the read buffer; liveness is bounded (8 s stall rule, confirmed by re-running the case)."
 
 LEVEL_TEXT["C02"] = ("Exploration: every case starts a real engine with small send buffers / WriteBufferCap values and runs generated batches of Write, Writev (up to 3000 slices), ReadFrom+Flush, AsyncWrite(v) from inside callbacks and from external producer goroutines "
                      "(including gated producers that build backlogs beyond the 1024-request threshold) against a peer with a generated reading schedule (stalls, trickle reads, 'wait until OutboundBuffered >= x'); "
                      "oracle: received stream = accepted records in effect order, per-producer issue order of async writes, OutboundBuffered bounds inside every callback and 0 after the drain, stall rule for 'accepted data is eventually sent'.")
-LEVEL_NOTE["C02"] = "Real loop-back sockets; OutboundBuffered is bounded from above by accepted minus bytes already received by the peer (exact equality needs the kernel-side count, which the real-socket harness cannot see); liveness is bounded (8 s, confirmed by re-running the case)."
+LEVEL_NOTE["C02"] = "Real loop-back sockets; the exact OutboundBuffered clause uses the byte count of the system-call shim (write/writev call sites re-qualified at check time), which also produces real short writes and, in LT mode, EAGAIN; liveness is bounded (8 s, confirmed by re-running the case)."
 
 LEVEL_TEXT["C04"] = ("Exploration: generated connection histories (every close cause, closes requested from inside OnOpen/OnTraffic, 2..3 causes fired concurrently, engine shutdown with open connections, a second wave of connections that re-uses the freed descriptor numbers, stale Wake/Close/AsyncWrite on closed connections) "
                      "run against a real engine in every configuration; the recorded callback log is judged by the automaton Open (Traffic)* Close with identity/loop/goroutine checks, the OnClose-error rule, net.ErrClosed for stale async writes, silence on bystander connections and CountConnections at quiescent points.")
